@@ -385,6 +385,18 @@ def _is_glue(e: BaseException) -> bool:
     return tb[-1].filename.startswith(here)
 
 
+def deliberate_raise(e: BaseException) -> bool:
+    """was this exception raised by a `raise` statement of the implementation itself (a refusal it words itself), as opposed to
+    an accident somewhere below it (an IndexError out of numpy, a KeyError of a dict …)?  Independent of type and wording."""
+    import traceback
+
+    tb = traceback.extract_tb(e.__traceback__)
+    if not tb:
+        return False
+    inner = tb[-1]
+    return inner.filename.startswith(str(REPO / "haptools")) and (inner.line or "").lstrip().startswith("raise")
+
+
 class glue:
     """`with glue("what"):` around the harness's own bookkeeping inside a recorder: anything that goes wrong there means the
     recorder no longer fits the code it records"""
@@ -450,6 +462,7 @@ def guarded(fn, *a, **kw):
             return {"error": "harness_glue", "msg": f"{type(e).__name__}: {e}"[:300]}
         o = err_obs(e)
         o["msg"] = (str(e) or "")[:200]
+        o["deliberate"] = deliberate_raise(e)
         return o
     finally:
         signal.setitimer(signal.ITIMER_REAL, 0)
